@@ -55,16 +55,18 @@ class ByNameEnumMappingGenerator(BaseEnumMappingGenerator):
         map: Optional[Mapping[Union[str, Enum], str]] = None,  # noqa: A002
     ):
         self._name_style = name_style
-        self._map = map if map is not None else {}
+        # members of enums with str mixin are equal to plain strings, so members and names are kept apart
+        self._member_map = {} if map is None else {key: value for key, value in map.items() if isinstance(key, Enum)}
+        self._name_map = {} if map is None else {key: value for key, value in map.items() if not isinstance(key, Enum)}
 
     def _generate_mapping(self, cases: Iterable[EnumT]) -> Mapping[EnumT, str]:
         result = {}
 
         for case in cases:
-            if case in self._map:
-                mapped = self._map[case]
-            elif case.name in self._map:
-                mapped = self._map[case.name]
+            if any(case is member for member in self._member_map):
+                mapped = next(value for member, value in self._member_map.items() if case is member)
+            elif case.name in self._name_map:
+                mapped = self._name_map[case.name]
             elif self._name_style:
                 mapped = convert_snake_style(case.name, self._name_style)
             else:
